@@ -457,30 +457,7 @@ def rule_dom(fx, cg, v):
                 'completes the user handler once with operation_aborted', key='C05:R-DOM:run_op::operator()',
                 where=f.file)
 
-    # disconnect_op on_shutdown: terminal => cancel() before completing
-    for f in fx.functions(cls='disconnect_op', name='operator()', tag='on_shutdown'):
-        v.saw(f)
-        ok = True
-        npaths = 0
-        for items, abort in OpPaths(fx, f).paths():
-            if abort:
-                continue
-            npaths += 1
-            terminal = None
-            cancelled = False
-            for it in items:
-                if it.kind == 'cond' and contains(it.x, lambda n: n.get('k') == 'mem' and n.get('n') == 'terminal'):
-                    terminal = (it.pol == 'T')
-                if it.kind == 'ev' and isinstance(it.x, dict) and it.x.get('k') == 'call' \
-                        and callee_name(it.x) == 'cancel' and callee_cls(it.x) == 'client_service':
-                    cancelled = True
-                if it.kind == 'ev' and is_consume(it) and terminal and not cancelled:
-                    ok = False
-            if terminal is None:
-                ok = False
-        v.check(ok and npaths >= 2, 'R-DOM', 'disconnect_op::operator()(on_shutdown)%s [%s]' % (f.inst(), f.tu),
-                'on the terminal edge client_service::cancel() precedes the completion (%d paths)' % npaths,
-                key='C05:R-DOM:disconnect_op::on_shutdown', where=f.file)
+    terminal_cancel_rule(fx, v, 'C05')
 
     # mqtt_client::cancel / async_disconnect: `_impl = impl->dup()` before the old service is cancelled
     for f in fx.fns:
@@ -701,3 +678,33 @@ def _reaches(f, a, target):
         seen.add(b)
         st.extend(s_ for s_ in f.succs(b) if s_ is not None)
     return False
+
+
+def terminal_cancel_rule(fx, v, prop='C05', rid='R-DOM'):
+    """shared with C09 ("then silence": after the user's DISCONNECT nothing more is written - the service is cancelled before
+    async_disconnect completes)"""
+    # disconnect_op on_shutdown: terminal => cancel() before completing
+    for f in fx.functions(cls='disconnect_op', name='operator()', tag='on_shutdown'):
+        v.saw(f)
+        ok = True
+        npaths = 0
+        for items, abort in OpPaths(fx, f).paths():
+            if abort:
+                continue
+            npaths += 1
+            terminal = None
+            cancelled = False
+            for it in items:
+                if it.kind == 'cond' and contains(it.x, lambda n: n.get('k') == 'mem' and n.get('n') == 'terminal'):
+                    terminal = (it.pol == 'T')
+                if it.kind == 'ev' and isinstance(it.x, dict) and it.x.get('k') == 'call' \
+                        and callee_name(it.x) == 'cancel' and callee_cls(it.x) == 'client_service':
+                    cancelled = True
+                if it.kind == 'ev' and is_consume(it) and terminal and not cancelled:
+                    ok = False
+            if terminal is None:
+                ok = False
+        v.check(ok and npaths >= 2, rid, 'disconnect_op::operator()(on_shutdown)%s [%s]' % (f.inst(), f.tu),
+                'on the terminal edge client_service::cancel() precedes the completion (%d paths)' % npaths,
+                key=prop + ':R-DOM:disconnect_op::on_shutdown', where=f.file)
+
